@@ -767,7 +767,26 @@ _CHAR_PREDS = {
     "is_ascii_control": lambda x: x < 32 or x == 127,
     "is_ascii_whitespace": lambda x: x in (9, 10, 12, 13, 32),
     "is_ascii": lambda x: x < 128,
+    # Unicode predicates of `char`, decided from the general category where that decides them (Numeric = Nd|Nl|No; Alphabetic ⊇ L*|Nl,
+    # and differs from it only on marks / symbols carrying Other_Alphabetic, which are refused as not evaluable)
+    "is_numeric": lambda x: _ucat(x) in ("Nd", "Nl", "No"),
+    "is_alphabetic": lambda x: _ualpha(x),
+    "is_alphanumeric": lambda x: _ualpha(x) or _ucat(x) in ("Nd", "Nl", "No"),
+    "is_control": lambda x: _ucat(x) == "Cc",
+    "is_whitespace": lambda x: x in (9, 10, 11, 12, 13, 32, 0x85, 0xA0, 0x1680, 0x2028, 0x2029, 0x202F, 0x205F, 0x3000) or 0x2000 <= x <= 0x200A,
 }
+
+
+def _ucat(x):
+    import unicodedata
+    return unicodedata.category(chr(x))
+
+
+def _ualpha(x):
+    c = _ucat(x)
+    if c[0] == "M" or c == "So":
+        raise NotEvaluable(f"char::is_alphabetic on U+{x:04X} (category {c}: depends on Other_Alphabetic)")
+    return c[0] == "L" or c == "Nl"
 
 
 class Newtype:
@@ -967,6 +986,12 @@ class Interp:
                 b = self.scopes.use.get(id(e)) if self.scopes is not None else None
                 if b and b.get("init") is not None:      # a `let` of the enclosing function, outside the evaluated expression
                     return self.ev(b["init"], env)
+            if r.get("kind") in ("Const", "Static", "AssocConst") and self.crate is not None and r.get("path") in self.crate.hir:
+                # a constant / static of the crate: its initialiser, evaluated once
+                memo = self.__dict__.setdefault("_consts", {})
+                if r["path"] not in memo:
+                    memo[r["path"]] = self.ev(self.crate.hir[r["path"]]["body"], {})
+                return memo[r["path"]]
             raise NotEvaluable(f"path {r.get('path')}")
         if k == "ref":
             return self.ev(e["e"], env)
@@ -1594,6 +1619,39 @@ def check_quoting_chain(c):
     if not ok:
         problems.append('ident_string is no longer `if needs_quote(id) { "\\"{escaped}\\"" } else { id }`')
     return problems, [isk["key"], nq["key"], ids["key"]]
+
+
+def check_quoting_semantic(c, model, words):
+    """Evaluate ident_string itself: every reserved word of the lexer comes out quoted, and every string of length <= 3 over a
+    small alphabet that comes out unquoted is read by the lexer as exactly one Id token.
+    -> ("ok", detail) | ("bad", message) | ("ne", reason) when ident_string leaves the evaluable fragment"""
+    ids = c.fn(r"pretty::candid::ident_string$")
+    interp = Interp(c)
+    try:
+        for w in words:
+            out = interp.call_fn(ids, [w])
+            if out == w:
+                return "bad", (f"ident_string prints the reserved word `{w}` unquoted: a field, variant tag or method of that name does "
+                               f"not re-parse as a name")
+        alpha = ["a", "Z", "_", "0", "-", " ", "é", '"', "\\"]
+        todo, n = [""], 0
+        for ln in range(0, 4):
+            nxt = []
+            for s_ in todo:
+                if s_ and interp.call_fn(ids, [s_]) == s_:
+                    n += 1
+                    try:
+                        toks = model.tokenize(s_)
+                    except LexError as e:
+                        toks = e
+                    if not (isinstance(toks, list) and len(toks) == 1 and toks[0][1] == s_ and toks[0][0] == "Id"):
+                        return "bad", f"ident_string prints {s_!r} unquoted, which the lexer does not read as one Id token ({toks})"
+                if ln < 3:
+                    nxt.extend(s_ + ch for ch in alpha)
+            todo = nxt
+    except NotEvaluable as e:
+        return "ne", str(e)
+    return "ok", f"ident_string evaluated: all {len(words)} reserved words quoted; {n} unquoted outputs (length <= 3, 9-character alphabet) are single Id tokens"
 
 
 # ============================================================================ lexical scopes of a function body
